@@ -648,14 +648,6 @@ func (p *Parser) parseInfixExpression(left ast.Expression) ast.Expression {
 	p.nextToken()
 	expression.Right = p.parseExpression(precedence)
 
-	// hack
-	if expression.Operator == "." {
-		if expression.Right != nil && expression.Right.String() != "" {
-			name := expression.Right.String()
-			expression.Right = &ast.StringLiteral{Token: token.Token{Type: token.STRING, Literal: name}, Value: name}
-		}
-	}
-
 	// If there was an error parsing the second operand
 	// then we must abort.
 	if expression.Right == nil {
